@@ -52,8 +52,10 @@ def validate(module, cfg, trace_path, timeout=600, xmx="4g", env=None):
     res = tlc.run_tlc(module, cfg, workers=1, env=e, timeout=timeout, deque=True, coverage=False, xmx=xmx)
     acc = [p for p in res.printed if isinstance(p, dict) and "accepted" in p]
     rej = [p for p in res.printed if isinstance(p, dict) and "rejected_at" in p]
+    fails = [p for p in res.printed if isinstance(p, dict) and "fails" in p]
     if acc and res.ok:
-        return dict(accepted=True, n=acc[-1]["accepted"], res=res)
+        f = fails[-1]["fails"] if fails else []
+        return dict(accepted=True, n=acc[-1]["accepted"], res=res, fails=list(f))
     if rej:
         return dict(accepted=False, rejected_at=rej[-1]["rejected_at"], event=rej[-1].get("event"), res=res)
     tail = "\n".join(res.stdout.splitlines()[-40:])
